@@ -219,22 +219,29 @@ fn keyid_kind<T: FromStr<Err = PasetoError>>(hdr: &[u8; 7], a: &[u8; 33]) -> boo
     ok
 }
 macro_rules! keyid_cross {
-    ($($name:ident: $t:ty, $own:expr, [$($other:expr),*];)*) => {$(
+    ($($name:ident: $t:ty, $other:expr;)*) => {$(
         #[kani::proof]
         #[kani::unwind(64)]
         pub fn $name() {
+            // one foreign header per harness: when a parser wrongly accepts, the base64 decoder runs over
+            // the symbolic tail, and several such parses in one harness exceed the memory cap (measured
+            // on seeded change c10b); acceptance under the own header is `keyid_{lid,sid,pid}_44` /
+            // `keyid_roundtrip_eq_ord_hash`
             let a: [u8; 33] = kani::any();
-            $(assert!(!keyid_kind::<$t>($other, &a), "a key id with another kind's or version's header was accepted");)*
-            let own = keyid_kind::<$t>($own, &a);
-            assert!(own, "a canonical id of the parser's own kind was rejected");
-            kani::cover!(own);
+            let ok = keyid_kind::<$t>($other, &a);
+            assert!(!ok, "a key id with another kind's or version's header was accepted");
+            kani::cover!(!ok);
         }
     )*};
 }
 keyid_cross! {
-    keyid_hdr_cross_kind_sid: KeyId<AV, Secret>, b"k4.sid.", [b"k4.lid.", b"k4.pid.", b"k3.sid."];
-    keyid_hdr_cross_kind_lid: KeyId<AV, Local>, b"k4.lid.", [b"k4.sid.", b"k4.pid.", b"k3.lid."];
-    keyid_hdr_cross_kind_pid: KeyId<AV, Public>, b"k4.pid.", [b"k4.lid.", b"k4.sid.", b"k3.pid."];
+    keyid_hdr_cross_sid_from_lid: KeyId<AV, Secret>, b"k4.lid.";
+    keyid_hdr_cross_sid_from_pid: KeyId<AV, Secret>, b"k4.pid.";
+    keyid_hdr_cross_sid_from_k3: KeyId<AV, Secret>, b"k3.sid.";
+    keyid_hdr_cross_lid_from_sid: KeyId<AV, Local>, b"k4.sid.";
+    keyid_hdr_cross_lid_from_pid: KeyId<AV, Local>, b"k4.pid.";
+    keyid_hdr_cross_pid_from_lid: KeyId<AV, Public>, b"k4.lid.";
+    keyid_hdr_cross_pid_from_sid: KeyId<AV, Public>, b"k4.sid.";
 }
 /// the kind letter symbolic, the tail concrete ("A"×44 = thirty-three zero bytes)
 #[kani::proof]
